@@ -113,6 +113,69 @@ def gen_cases(rng, n, runner):
         cases.append(("rds %s async:%s %s %d" % (pk, rng.choice(["all", "b1", "h/p1"]), inp, a), dict(meta, kind="valid-ctx-async")))
         if pk == "binary":
             cases.append(("rds unsafe sync %s %d" % (hx + "00" * 16, a), dict(meta, kind="valid-ctx-unsafe", trailing=16)))
+    # the public skip(ttype) entry driven from a FIELD LOOP (read_field_begin; skip(field type); read_field_end) as generated
+    # decoders and ApplicationException::decode do: one or several skipped fields -- among them bool fields, whose value the
+    # compact protocol parks in the reader -- followed by decoded fields incl. bool containers
+    loop_structs = [
+        [(1, "b1"), (2, "L2,3 b1 b0 b1"), (3, "i7")],
+        [(1, "b0"), (2, "L2,3 b1 b0 b1"), (3, "i7")],
+        [(1, "b1"), (2, "i5"), (3, "T2,2 b0 b1"), (4, "M2,8,1 b1 i3")],
+        [(1, "b0"), (2, "M8,2,2 i1 b1 i2 b0"), (3, "b1"), (4, "L2,1 b0")],
+        [(5, "b1"), (6, "S2 f1 b0 f2 L2,2 b1 b1"), (7, "L2,2 b0 b1")],
+        [(1, "s6162"), (2, "b1"), (20, "L12,1 S1 f1 L2,2 b1 b0"), (21, "b0"), (22, "M2,2,1 b0 b1")],
+        [(1, "L2,2 b1 b0"), (2, "b1"), (3, "L2,2 b0 b0"), (4, "y3")],
+        [(-3, "b1"), (300, "T2,1 b0"), (301, "d4609434218613702656")],
+    ]
+    for _ in range(max(0, n // 400)):
+        k = rng.randrange(2, 6)
+        ids = sorted(rng.sample(range(1, 40), k))
+        loop_structs.append([(i, rng.choice(["b0", "b1", "L2,2 b1 b0", "T2,1 b1", "M2,3,1 b1 y2", "M3,2,1 y1 b0", "i7", "s61",
+                                             "S2 f1 b1 f2 L2,1 b0", "L12,1 S1 f1 b1"])) for i in ids])
+    singles = sorted(set(v for st in loop_structs for _, v in st))
+    for pk in PKS:
+        lens = {}
+        for v, o in zip(singles, core.run_lines(runner, ["rt %s contig - 1 %s" % (pk, v) for v in singles])):
+            lens[v] = (len(o.split(" ")[1]) // 2) if o.startswith("W ") and o.split(" ")[1] != "-" else 0
+        for st in loop_structs:
+            text = "S%d %s" % (len(st), " ".join("f%d %s" % (i, v) for i, v in st))
+            oc = core.run_lines(runner, ["rt %s contig - 1 %s" % (pk, text)])[0]
+            if not oc.startswith("W "):
+                continue
+            hx = oc.split(" ")[1]
+            skipsets = [[st[0][0]], [i for i, v in st if v[0] == "b"], [i for i, _ in st][::2], [i for i, _ in st]]
+            for ids in skipsets:
+                if not ids:
+                    continue
+                want = ["S%d" % len(st)]
+                for i, v in st:
+                    want.append("f%d" % i)
+                    if i in ids:
+                        ln = 0 if (pk == "compact" and v[0] == "b") else lens[v]
+                        want += ["L1,1", "l%d" % ln]
+                    else:
+                        want += tg.canon_tokens(pk, v.split(" "))
+                trail = bytes(rng.randrange(256) for _ in range(rng.choice([0, 3])))
+                meta = dict(kind="valid-loop", want=want, trailing=len(trail), skipped=ids)
+                idl = ",".join(str(i) for i in ids)
+                cases.append(("rds %s sync %s %s" % (pk, hx + trail.hex(), idl), meta))
+                cases.append(("rds %s async:%s %s %s" % (pk, rng.choice(["all", "b1", "h/p1"]), hx + trail.hex(), idl), dict(meta, kind="valid-loop-async")))
+                if pk == "binary":
+                    cases.append(("rds unsafe sync %s %s" % (hx + "00" * 16, idl), dict(meta, kind="valid-loop-unsafe", trailing=16)))
+        # ApplicationException::decode / ::decode_async: an exception struct of a newer peer carrying unknown fields
+        for extra in ([(3, "b1"), (4, "L2,3 b1 b0 b1")], [(3, "b0"), (4, "T2,2 b1 b0"), (5, "M2,2,1 b1 b0")],
+                      [(3, "S2 f1 b1 f2 L2,2 b1 b0")], [(7, "L12,2 S1 f1 b1 S2 f1 b0 f2 L2,1 b1")], [(3, "b1"), (4, "i9"), (5, "L2,1 b0")],
+                      [(3, "u000102030405060708090a0b0c0d0e0f"), (4, "M11,2,1 s61 b1")]):
+            for order in (0, 1, 2):
+                base = [(1, "s626f6f6d"), (2, "i6")]
+                fl = (base + extra) if order == 0 else ([base[0]] + extra + [base[1]]) if order == 1 else (extra + base)
+                text = "S%d %s" % (len(fl), " ".join("f%d %s" % (i, v) for i, v in fl))
+                oc = core.run_lines(runner, ["rt %s contig - 1 %s" % (pk, text)])[0]
+                if not oc.startswith("W "):
+                    continue
+                trail = bytes(rng.randrange(256) for _ in range(rng.choice([0, 2])))
+                meta = dict(kind="valid-app", want="ok 626f6f6d 6 REM %d" % len(trail))
+                cases.append(("appr %s %s" % (pk, oc.split(" ")[1] + trail.hex()), meta))
+                cases.append(("aappr %s %s %s" % (pk, oc.split(" ")[1] + trail.hex(), rng.choice(["all", "b1", "h/p1"])), dict(meta, kind="valid-app-async")))
     # unskippable type codes
     for pk in PKS:
         for code in (0, 1):
@@ -135,6 +198,25 @@ def oracle(case, meta, out):
     if out.startswith("HANG"):
         return "asynchronous skipper did not finish"
     if not meta["kind"].startswith("valid"):
+        return None
+    if meta["kind"].startswith("valid-app"):
+        if out.split(" ORACLE-FAIL")[0] != meta["want"] or "ORACLE-FAIL" in out:
+            return "ApplicationException with fields unknown to the reader is not decoded (skip in a field loop): " + out[:80]
+        return None
+    if meta["kind"].startswith("valid-loop"):
+        if not out.startswith("ok "):
+            return "a field loop skipping well-formed fields failed: " + out[:80]
+        t = out.split(" ")
+        j = t.index("REM")
+        got = [("l*" if (x.startswith("l") and i > 0 and t[1:j][i - 1] == "L1,1") else x) for i, x in enumerate(t[1:j])]
+        want = list(meta["want"])
+        wantn = [("l*" if (x.startswith("l") and i > 0 and want[i - 1] == "L1,1") else x) for i, x in enumerate(want)]
+        if got != wantn:
+            return "fields decoded after skipped fields differ (skipped ids %s)" % meta["skipped"]
+        if "async" not in meta["kind"] and t[1:j] != want:
+            return "skip in a field loop reported a wrong byte count (skipped ids %s)" % meta["skipped"]
+        if int(t[j + 1]) != meta["trailing"]:
+            return "field loop consumed %d bytes too many" % (meta["trailing"] - int(t[j + 1]))
         return None
     if meta["kind"].startswith("valid-ctx"):
         if not out.startswith("ok "):
